@@ -53,7 +53,7 @@ class C02(Prop):
     num = 2
     regions = {'quick': [('core', 70), ('block', 70), ('routers', 40), ('renege', 50), ('preempt', 50), ('sched', 40),
                          ('sched_block', 30), ('schedpre', 40), ('slotted', 40), ('slotted_pre', 40), ('renege_schedpre', 40), ('dyn', 40), ('all', 50),
-                         ('preempt_block', 25), ('schedpre_block', 25), ('schedpre_tandem', 40), ('core_mix', 50), ('block_mix', 30)]}
+                         ('preempt_block', 25), ('schedpre_block', 25), ('schedpre_tandem', 40), ('core_mix', 50), ('block_mix', 30), ('dyn_reroute', 80)]}
     rule = ('one case = one observed run; non-trivial = the run had two events at the same instant and a blocked '
             'customer or a restart after interruption; distinct = distinct configuration hashes')
     clause_text = {1: '(b) event did not run at the minimum of the scheduled dates', 2: '(c) a date scheduled in the past',
